@@ -29,6 +29,7 @@ def run(rep, prog, tier):
     rep.rule('C14.4', 'copy completeness', floor=9)
     rep.rule('C14.5', 'attachment inserts; embedded signatures extracted', floor=5)
     rep.rule('C14.6', 'copies of key material and signature material carry every attribute their serialiser reads', floor=12)
+    rep.rule('C14.7', 'octet widths of exported key material are ceilings of the bit length; EC points and MPIs re-parse to what was written', floor=10)
     rep.assume('SorteDeque.insort keeps elements with equal keys (bisect insertion, no replacement)')
     rep.assume('SubPackets: `name in sp` holds exactly when sp[name] is a non-empty list (lookup by subpacket name in both areas)')
 
@@ -38,6 +39,14 @@ def run(rep, prog, tier):
     copies(rep, prog)
     attach(rep, prog)
     material_copies(rep, prog)
+    material_widths(rep, prog)
+
+
+def material_widths(rep, prog):
+    """C14.7: a generated key survives export and import only if the widths its material is written with are the widths it is
+    read with (P-521: 66 octets per coordinate, not 65) - the finite-point family of C18.10, reported here."""
+    from rules import C18
+    C18.check_widths(rep, prog, 'C14.7')
 
 
 def material_copies(rep, prog):
@@ -796,40 +805,7 @@ def copies(rep, prog):
                   'signature would be re-encoded and stop verifying', where=cp.where, expected='sp._hashed_raw = copy.copy(self._hashed_raw) with the maps copied directly')
     # packet-level copies reached from the copies above (copy.copy of the key / user id / user attribute / signature packet): an
     # explicit __copy__ must carry every field the packet's writer emits; no __copy__ at all is the generic (complete) copy
-    for cname in ('PubKeyV4', 'PrivKeyV4', 'PubSubKeyV4', 'PrivSubKeyV4', 'UserID', 'UserAttribute', 'SignatureV4'):
-        c = prog.cls('pgpy.packet.packets', cname)
-        cpm = c.find_method('__copy__')
-        if cpm is None:
-            rep.ok('C14.4', '%s.__copy__' % cname, 'generic copy (no override)')
-            continue
-        w = c.find_method('__bytearray__')
-        if w is None:
-            raise AnalysisError('%s.__bytearray__ vanished' % cname)
-        wme, cme = w.params[0], cpm.params[0]
-        emitted = set()
-        for s in Interp(prog, Scenario(inline=noinline, self_cls=c)).run(w):
-            r = render(s.ret) if s.ret is not None else ''
-            emitted |= {x.lstrip('_') for x in re.findall(r'(?<![\w.])%s\.(\w+)' % re.escape(wme), r)}
-            if re.search(r'super\(\w*\)\.__bytearray__\(\)', r):
-                emitted.add('header')
-        for s in Interp(prog, Scenario(inline=noinline, self_cls=c)).run(cpm):
-            if s.raised is not None:
-                continue
-            obj = render(s.ret)
-            carried = set()
-            for pth, v, l, _ in s.stores:
-                m = re.match(r'^%s\.(\w+)$' % re.escape(obj), pth)
-                if m is None:
-                    continue
-                fld = m.group(1).lstrip('_')
-                src = re.sub(r'^(?:copy\.copy|copy\.deepcopy|bytearray|bytes|list)\((.*)\)$', r'\1', v)
-                src = re.sub(r'(\[:\]|\.copy\(\))$', '', src)
-                if src in ('%s.%s' % (cme, fld), '%s._%s' % (cme, fld)):
-                    carried.add(fld)
-            missing = sorted(emitted - carried)
-            rep.check(not missing and bool(emitted), 'C14.4', '%s.__copy__' % cname, 'writer emits %s, copy carries %s' % (sorted(emitted), sorted(carried)),
-                      'a copied packet must carry every field its writer emits (a copy rebuilt from a derived view exports a truncated packet)',
-                      where=cpm.where, expected=sorted(emitted), found=sorted(carried))
+    packet_copies(rep, prog, 'C14.4', ('PubKeyV4', 'PrivKeyV4', 'PubSubKeyV4', 'PrivSubKeyV4', 'UserID', 'UserAttribute', 'SignatureV4'))
     # attributes __init__ sets: the ones this rule knows are covered by the checks above; any other attribute is classified by
     # analysis - certificate state (read by the serialiser / export / ordering / hash readers, and written from outside them)
     # must be carried by the copy, a cache or a constant need not be
@@ -868,6 +844,45 @@ def copies(rep, prog):
                       a, sorted(writes), detail),
                       'an attribute that the serialiser / ordering / hash input reads and that is set from outside them is certificate state: '
                       'a copy must carry it', where=(cpf or ini).where, expected='<copy>.%s = ... self.%s ...' % (a, a), found=detail)
+
+
+def packet_copies(rep, prog, rid, classnames):
+    """An explicit __copy__ of a packet class must carry every field the packet's writer emits (header included); no __copy__ at
+    all is the generic (complete) copy."""
+    for cname in classnames:
+        c = prog.cls('pgpy.packet.packets', cname)
+        cpm = c.find_method('__copy__')
+        if cpm is None:
+            rep.ok(rid, '%s.__copy__' % cname, 'generic copy (no override)')
+            continue
+        w = c.find_method('__bytearray__')
+        if w is None:
+            raise AnalysisError('%s.__bytearray__ vanished' % cname)
+        wme, cme = w.params[0], cpm.params[0]
+        emitted = set()
+        for s in Interp(prog, Scenario(inline=noinline, self_cls=c)).run(w):
+            r = render(s.ret) if s.ret is not None else ''
+            emitted |= {x.lstrip('_') for x in re.findall(r'(?<![\w.])%s\.(\w+)' % re.escape(wme), r)}
+            if re.search(r'super\(\w*\)\.__bytearray__\(\)', r):
+                emitted.add('header')
+        for s in Interp(prog, Scenario(inline=noinline, self_cls=c)).run(cpm):
+            if s.raised is not None:
+                continue
+            obj = render(s.ret)
+            carried = set()
+            for pth, v, l, _ in s.stores:
+                m = re.match(r'^%s\.(\w+)$' % re.escape(obj), pth)
+                if m is None:
+                    continue
+                fld = m.group(1).lstrip('_')
+                src = re.sub(r'^(?:copy\.copy|copy\.deepcopy|bytearray|bytes|list)\((.*)\)$', r'\1', v)
+                src = re.sub(r'(\[:\]|\.copy\(\))$', '', src)
+                if src in ('%s.%s' % (cme, fld), '%s._%s' % (cme, fld)):
+                    carried.add(fld)
+            missing = sorted(emitted - carried)
+            rep.check(not missing and bool(emitted), rid, '%s.__copy__' % cname, 'writer emits %s, copy carries %s' % (sorted(emitted), sorted(carried)),
+                      'a copied packet must carry every field its writer emits (a copy rebuilt from a derived view exports a truncated packet)',
+                      where=cpm.where, expected=sorted(emitted), found=sorted(carried))
 
 
 READER_ROOTS = {'__bytearray__', '__hashbytearray__', '__unhashbytearray__', '__lt__', '__gt__', '__le__', '__ge__', '__eq__', '__hash__', 'hashdata',
